@@ -235,6 +235,22 @@ func c03FormatCase(w *rt.W, v sem.Ver) {
 	if got := v.String(); got != text {
 		w.Fail("format-component", "format", args, got, text, "String() of a version must spell every numeric component in plain decimal")
 	}
+	if mt, err := v.MarshalText(); err != nil || string(mt) != text {
+		w.Fail("format-component", "format", args, string(mt), text, "MarshalText must give the plain text")
+	}
+	if st := v.StringTag(); st != "v"+text {
+		w.Fail("format-component", "format", args, st, "v"+text, "StringTag must give v followed by the plain text")
+	}
+	for _, verb := range letterVerbs { // only %t selects the tag form
+		wantV := text
+		if verb == "%t" {
+			wantV = "v" + text
+		}
+		if s := fmt.Sprintf(verb, v); s != wantV {
+			w.Fail("format-verb", "format", args, verb+" -> "+s, wantV, "Sprintf "+verb)
+		}
+	}
+	w.Eval(51)
 	if got, err := sem.DefaultFormatter([]byte("v"), v, sem.FormatTag); err != nil || string(got) != "vv"+text {
 		w.Fail("format-component", "format", args, string(got), "vv"+text, "DefaultFormatter(\"v\", FormatTag) must append v and the plain decimal components")
 	}
